@@ -1,4 +1,4 @@
-import ZipVerif.Lemmas.AesList
+import ZipVerif.Lemmas.AesEntry
 /-
 C16 — WinZip-AES entries decrypt correctly and tampering is detected.
 Property theorems only (helper lemmas: `Lemmas/Aes*.lean`). PBKDF2, the AES block function and
@@ -303,6 +303,113 @@ theorem aes_tamper_detected (P : AesPrims) (hW : P.WF) (mode : AesMode) (pw salt
   refine ⟨?_, hpv, hcr⟩
   exact (hI1.stored _ _ hmac).symm ▸ rfl
 
+/-! ## `ZipFile::read`: any decoder on top of the AES reader (after the fix of D12) -/
+
+/-- **End-of-file of the entry implies the authentication code was checked — for ANY decoder.**
+The decoder is an arbitrary strategy (`DecStep`: any number of pulls of any sizes from the AES reader,
+any returned bytes, an end-of-file as early as it likes, spurious errors, no `Read` contract towards
+its caller); the only assumption is `Decoder.Faithful`: an error of the reader below ends the
+decoder's call with an error. Nothing is assumed about the inner byte source or the CRC parameters.
+If a sequence of successful `ZipFile::read` calls is followed by `Ok(0)` for a non-empty buffer on a
+non-empty entry, the AES reader is at its end: exactly `L` ciphertext bytes were consumed and
+`HMAC(hmac_key, those bytes)[0..10]` was compared with the stored code and found equal. -/
+theorem entry_eof_implies_mac {σ δ H} (P : AesPrims) (hW : P.WF) (S : Src σ) (D : Decoder δ)
+    (hD : D.Faithful) (upd : H → Bytes → H) (fin : H → UInt32) (mode : AesMode) (L : Nat) (s s' : σ)
+    (pw : Bytes) (v0 : Valid σ) (hv : validate P S mode (some L) s pw = (.ok (some v0), s'))
+    (hL0 : 0 < L) (hL : L < U64) (d0 : δ) (c0 : CrcSt H) (bufs : List Nat) (out : Bytes)
+    (st1 st2 : EntrySt σ δ H)
+    (hrun : entryDrain P S D true upd fin bufs ⟨d0, v0, c0⟩ [] = (.ok out, st1))
+    (n : Nat) (hn : 0 < n) (heof : entryRead P S D true upd fin st1 n = (.ok [], st2)) :
+    st2.aes.dataRemaining = 0 ∧ st2.aes.ghostCt.length = L ∧
+    st2.aes.ghostMac = some ((P.hmac v0.hmacKey st2.aes.ghostCt).take AUTH_CODE_LENGTH,
+                             (P.hmac v0.hmacKey st2.aes.ghostCt).take AUTH_CODE_LENGTH) := by
+  obtain ⟨L', salt, pvv, s1, hdl, _, _, _, rfl⟩ := validate_ok P S mode _ s s' pw v0 hv
+  cases hdl
+  have hQ := macOk_stable P hW S hL
+    ((P.pbkdf2 pw salt (2 * mode.keyLength + 2)).take mode.keyLength)
+    (((P.pbkdf2 pw salt (2 * mode.keyLength + 2)).drop mode.keyLength).take mode.keyLength)
+  have h1 := entryDrain_ok P hW S hL hQ D hD true upd fin bufs _ st1 [] out ⟨[], RunInv.init P s' _ _ _⟩ hrun
+  obtain ⟨⟨acc, hR⟩, hz⟩ := entryRead_ok P hW S hL hQ D hD true upd fin st1 st2 n [] h1 heof
+  have hrem := hz rfl rfl hn
+  obtain ⟨c, hc⟩ := hR.passed (hR.inv.finAt hrem hL0)
+  obtain ⟨hc1, _, _⟩ := hR.inv.mac c c hc
+  have hlen := hR.inv.len
+  exact ⟨hrem, by omega, by rw [hc, hc1, hR.hkeyEq]; rfl⟩
+
+/-- The same for `Stored` (no decoder, `finish_crypto` does nothing): the entry's `Ok(0)` *is* the AES
+reader's. -/
+theorem entry_eof_implies_mac_stored {σ H} (P : AesPrims) (hW : P.WF) (S : Src σ)
+    (upd : H → Bytes → H) (fin : H → UInt32) (mode : AesMode) (L : Nat) (s s' : σ)
+    (pw : Bytes) (v0 : Valid σ) (hv : validate P S mode (some L) s pw = (.ok (some v0), s'))
+    (hL0 : 0 < L) (hL : L < U64) (c0 : CrcSt H) (bufs : List Nat) (out : Bytes)
+    (st1 st2 : EntrySt σ Unit H)
+    (hrun : entryDrain P S storedDec false upd fin bufs ⟨(), v0, c0⟩ [] = (.ok out, st1))
+    (n : Nat) (hn : 0 < n) (heof : entryRead P S storedDec false upd fin st1 n = (.ok [], st2)) :
+    st2.aes.dataRemaining = 0 ∧ st2.aes.ghostCt.length = L ∧
+    st2.aes.ghostMac = some ((P.hmac v0.hmacKey st2.aes.ghostCt).take AUTH_CODE_LENGTH,
+                             (P.hmac v0.hmacKey st2.aes.ghostCt).take AUTH_CODE_LENGTH) := by
+  obtain ⟨L', salt, pvv, s1, hdl, _, _, _, rfl⟩ := validate_ok P S mode _ s s' pw v0 hv
+  cases hdl
+  have hQ := macOk_stable P hW S hL
+    ((P.pbkdf2 pw salt (2 * mode.keyLength + 2)).take mode.keyLength)
+    (((P.pbkdf2 pw salt (2 * mode.keyLength + 2)).drop mode.keyLength).take mode.keyLength)
+  have h1 := entryDrain_ok P hW S hL hQ storedDec storedDec_faithful false upd fin bufs _ st1 [] out
+    ⟨[], RunInv.init P s' _ _ _⟩ hrun
+  obtain ⟨⟨acc, hR⟩, _⟩ := entryRead_ok P hW S hL hQ storedDec storedDec_faithful false upd fin st1 st2 n [] h1 heof
+  have hrem := entryRead_stored_eof P hW S hL hQ storedDec storedDec_storedLike upd fin st1 st2 n hn h1 heof
+  obtain ⟨c, hc⟩ := hR.passed (hR.inv.finAt hrem hL0)
+  obtain ⟨hc1, _, _⟩ := hR.inv.mac c c hc
+  have hlen := hR.inv.len
+  exact ⟨hrem, by omega, by rw [hc, hc1, hR.hkeyEq]; rfl⟩
+
+/-- **Tampering is detected no later than end-of-file, at the level of `ZipFile::read`, for every
+inner method** (the statement that was partial before the fix of D12). Entry
+`salt ‖ verifier ‖ ct ‖ code` with non-empty `ct`; inner method either compressing with an arbitrary
+`Faithful` decoder, or `Stored` (`StoredLike` pass-through); any CRC parameters (AE-1 or AE-2), any
+schedules. If a sequence of successful reads ends with `Ok(0)` for a non-empty buffer then
+`code = HMAC(k_mac(pw, salt), ct)[0..10]` and the verifier is the derived one. So after any change of
+salt, verifier, ciphertext or code that breaks these equations no run reaches a successful
+end-of-file — whatever the decoder makes of the altered bytes. -/
+theorem aes_tamper_detected_entry {δ H} (P : AesPrims) (hW : P.WF) (mode : AesMode)
+    (pw salt pvv ct code rest : Bytes) (sched bufs : List Nat) (compressing : Bool) (D : Decoder δ)
+    (hD : D.Faithful) (hS : compressing = false → D.StoredLike) (upd : H → Bytes → H) (fin : H → UInt32)
+    (hs : salt.length = mode.saltLength) (hp : pvv.length = PWD_VERIFY_LENGTH)
+    (hc : code.length = AUTH_CODE_LENGTH) (h0 : 0 < ct.length) (hL : ct.length < U64)
+    (v0 : Valid ListSrc) (s' : ListSrc)
+    (hv : validate P listSrc mode (some ct.length) ⟨salt ++ pvv ++ (ct ++ (code ++ rest)), sched⟩ pw
+      = (.ok (some v0), s'))
+    (d0 : δ) (c0 : CrcSt H) (out : Bytes) (st1 st2 : EntrySt ListSrc δ H)
+    (hrun : entryDrain P listSrc D compressing upd fin bufs ⟨d0, v0, c0⟩ [] = (.ok out, st1))
+    (n : Nat) (hn : 0 < n) (heof : entryRead P listSrc D compressing upd fin st1 n = (.ok [], st2)) :
+    (P.hmac (((P.pbkdf2 pw salt (2 * mode.keyLength + 2)).drop mode.keyLength).take mode.keyLength) ct).take
+        AUTH_CODE_LENGTH = code ∧
+      pvv = (P.pbkdf2 pw salt (2 * mode.keyLength + 2)).drop (2 * mode.keyLength) := by
+  obtain ⟨L', salt', pvv', s1, hdl, hr1, hr2, hpv, rfl⟩ := validate_ok P listSrc mode _ _ s' pw v0 hv
+  cases hdl
+  obtain ⟨sc1, sc2, e1, e2⟩ := validate_list_reads mode.saltLength salt pvv (ct ++ (code ++ rest)) sched hs hp
+  rw [e1] at hr1
+  simp only [Prod.mk.injEq, Out.ok.injEq] at hr1
+  obtain ⟨rfl, rfl⟩ := hr1
+  rw [e2] at hr2
+  simp only [Prod.mk.injEq, Out.ok.injEq] at hr2
+  obtain ⟨rfl, rfl⟩ := hr2
+  have hQ := listOk_stable P hW (rest := rest)
+    (key := (P.pbkdf2 pw salt (2 * mode.keyLength + 2)).take mode.keyLength)
+    (hk := ((P.pbkdf2 pw salt (2 * mode.keyLength + 2)).drop mode.keyLength).take mode.keyLength) hL hc
+  have h1 := entryDrain_ok P hW listSrc hL hQ D hD compressing upd fin bufs _ st1 [] out
+    ⟨[], ListInv.init P ct code rest _ _ sc2⟩ hrun
+  obtain ⟨⟨acc, hI⟩, hz⟩ := entryRead_ok P hW listSrc hL hQ D hD compressing upd fin st1 st2 n [] h1 heof
+  have hrem : st2.aes.dataRemaining = 0 := by
+    cases compressing with
+    | true => exact hz rfl rfl hn
+    | false => exact entryRead_stored_eof P hW listSrc hL hQ D (hS rfl) upd fin st1 st2 n hn h1 heof
+  have hg : st2.aes.ghostCt = ct := by rw [hI.ghost, hrem, Nat.sub_zero, List.take_length]
+  obtain ⟨c, hcm⟩ := hI.run.passed (hI.run.inv.finAt hrem h0)
+  obtain ⟨hc1, _, _⟩ := hI.run.inv.mac c c hcm
+  have hst := hI.stored c c hcm
+  refine ⟨?_, hpv⟩
+  rw [← hst, hc1, hg, hI.run.hkeyEq]
+
 /-! ## Open-time decisions (`read.rs`) -/
 
 /-- **No password ⇒ the password-required error**, for every entry with the encryption flag. -/
@@ -395,11 +502,17 @@ theorem crc_flag_is_vendor_version {σ} (P : AesPrims) (S : Src σ) (e : Entry) 
 /-- **AE-2: the CRC is ignored** — with the flag set `Crc32Reader::read` never produces its own
 error; its result is the inner reader's, whatever the stored CRC says. -/
 theorem ae2_crc_ignored {H ι} (upd : H → Bytes → H) (fin : H → UInt32)
-    (rd : ι → Nat → Out Bytes × ι) (h : H) (check : UInt32) (i : ι) (n : Nat) :
+    (rd : ι → Nat → Out Bytes × ι) (h : H) (check : UInt32) (i : ι) (n : Nat) (hn : n ≠ 0) :
     (crcRead upd fin rd ⟨h, check, true⟩ i n).1 = (rd i n).1 := by
   unfold crcRead
+  rw [if_neg hn]
   cases rd i n with
   | mk o i' => cases o <;> simp
+
+/-- A zero-length read is `Ok(0)` and reaches neither the decoder nor the CRC comparison. -/
+theorem crc_empty_buffer {H ι} (upd : H → Bytes → H) (fin : H → UInt32)
+    (rd : ι → Nat → Out Bytes × ι) (c : CrcSt H) (i : ι) : crcRead upd fin rd c i 0 = (.ok [], c, i) := by
+  unfold crcRead; rw [if_pos rfl]
 
 /-- **AE-1: the CRC is enforced** — at the inner reader's end-of-file a mismatch between the CRC of
 everything delivered and the stored CRC is the "Invalid checksum" error, a match passes `Ok(0)` on. -/
@@ -409,8 +522,8 @@ theorem ae1_crc_enforced {H ι} (upd : H → Bytes → H) (fin : H → UInt32)
     (fin h ≠ check → (crcRead upd fin rd ⟨h, check, false⟩ i n).1 = .err (.io .other)) ∧
     (fin h = check → (crcRead upd fin rd ⟨h, check, false⟩ i n).1 = .ok []) := by
   unfold crcRead
-  rw [heof]
-  constructor <;> intro hc <;> simp [hn, hc]
+  rw [if_neg hn, heof]
+  constructor <;> intro hc <;> simp [hc]
 
 /-! ## The 0x9901 extra field -/
 
@@ -561,19 +674,52 @@ example : (toyRun .aes128 ((toyEntry .aes128 [1, 2] (toyPlain 8) (toyPlain 3)).t
 example : (toyRun .aes128 ((toyEntry .aes128 [1, 2] (toyPlain 8) []).take 10 ++ List.replicate 10 0) 20 [1, 2] [] [4, 4]).map
     (fun r => (okVal r.1, r.2.1)) = some (some [], none) := by decide +kernel
 
-/-- **D12 on the model** — end-of-file of a *decoder* does not imply end-of-file of the AES reader.
-An entry with 6 ciphertext bytes and a destroyed authentication code, a decoder that refills 4 bytes
-at a time and whose compressed stream is complete after 3 bytes: the decoder finishes successfully
-with `data_remaining = 2`; no code was compared. (`aes_eof_implies_mac` is about the AES layer only;
-the entry-level tamper statement is therefore partial for compressing inner methods.) -/
+/-- A toy decoder whose compressed stream is complete after 3 bytes: it refills 4 bytes at a time
+and reports end-of-file once it has seen 3. State = number of bytes seen. -/
+def earlyDec : Decoder Nat :=
+  ⟨fun seen _ =>
+    if 3 ≤ seen then .done (.ok []) seen
+    else .pull 4 fun r => match r with
+      | .ok bs => .done (.ok bs) (seen + bs.length)
+      | .err e => .done (.err e) seen⟩
+
+theorem earlyDec_faithful : earlyDec.Faithful := by
+  intro d n
+  unfold earlyDec
+  simp only
+  split
+  · exact .done _ _
+  · exact .pull _ _ (fun e => ⟨e, d, rfl⟩) (fun bs => .done _ _)
+
+/-- entry with 6 ciphertext bytes whose authentication code has been destroyed -/
+def badCodeEntry : Bytes := (toyEntry .aes128 [1, 2] (toyPlain 8) (toyPlain 6)).take 16 ++ List.replicate 10 0
+
+def idUpd : Unit → Bytes → Unit := fun _ _ => ()
+def zeroFin : Unit → UInt32 := fun _ => 0
+
+/-- **D12 on the model (pre-fix `ZipFile::read`)** — end-of-file of a *decoder* does not imply
+end-of-file of the AES reader: with `earlyDec` over `badCodeEntry` the pre-fix entry read returns 4
+bytes and then `Ok(0)` with `data_remaining = 2`, no code was ever compared. -/
 theorem d12_decoder_eof_without_mac :
-    ∃ (payload : Bytes) (v : Valid ListSrc),
-      (validate toy listSrc .aes128 (dataLength .aes128 26) ⟨payload, []⟩ [1, 2]).1 = .ok (some v) ∧
-      (decoderPull toy listSrc (fun got => decide (3 ≤ got.length)) 4 10 v []).1.isOk = true ∧
-      (decoderPull toy listSrc (fun got => decide (3 ≤ got.length)) 4 10 v []).2.dataRemaining = 2 ∧
-      (decoderPull toy listSrc (fun got => decide (3 ≤ got.length)) 4 10 v []).2.ghostMac = none ∧
-      (drain toy listSrc [4, 4] v []).1 matches .err (.io .invalidData) := by
-  refine ⟨(toyEntry .aes128 [1, 2] (toyPlain 8) (toyPlain 6)).take 16 ++ List.replicate 10 0, _, rfl, ?_⟩
+    ∃ v : Valid ListSrc,
+      (validate toy listSrc .aes128 (dataLength .aes128 26) ⟨badCodeEntry, []⟩ [1, 2]).1 = .ok (some v) ∧
+      let r1 := entryReadPreFix toy listSrc earlyDec idUpd zeroFin ⟨0, v, ⟨(), 0, true⟩⟩ 16
+      let r2 := entryReadPreFix toy listSrc earlyDec idUpd zeroFin r1.2 16
+      (okVal r1.1).map List.length = some 4 ∧ okVal r2.1 = some [] ∧
+      r2.2.aes.dataRemaining = 2 ∧ r2.2.aes.ghostMac = none := by
+  refine ⟨_, rfl, ?_⟩
+  decide +kernel
+
+/-- … and the same calls through the current `ZipFile::read`: the second one drains the AES reader
+(`finish_crypto`) and reports the `InvalidData` error of the code check instead of end-of-file. -/
+theorem d12_fixed_on_witness :
+    ∃ v : Valid ListSrc,
+      (validate toy listSrc .aes128 (dataLength .aes128 26) ⟨badCodeEntry, []⟩ [1, 2]).1 = .ok (some v) ∧
+      let r1 := entryRead toy listSrc earlyDec true idUpd zeroFin ⟨0, v, ⟨(), 0, true⟩⟩ 16
+      let r2 := entryRead toy listSrc earlyDec true idUpd zeroFin r1.2 16
+      (okVal r1.1).map List.length = some 4 ∧ errOf r2.1 = some (.io .invalidData) ∧
+      r2.2.aes.dataRemaining = 0 := by
+  refine ⟨_, rfl, ?_⟩
   decide +kernel
 
 /-! ### extra field examples -/
